@@ -15,12 +15,12 @@ structure Naming where
   pkgName : Nat → List Nat
   pkgVersion : Nat → List Nat
   extName : Nat → List Nat
-  locStr : Path → List Nat
+  locStr : Nat → Path → List Nat   -- fmt.Sprintf("%v", Locations) AFTER sort.Strings(Locations); may depend on the package
 
 abbrev Key := List Nat × List Nat × List Nat × List Nat
 
 def Naming.key (nm : Naming) (p : Pkg) : Key :=
-  (nm.pkgName p.id, nm.pkgVersion p.id, nm.extName p.ext, nm.locStr p.loc)
+  (nm.pkgName p.id, nm.pkgVersion p.id, nm.extName p.ext, nm.locStr p.id p.loc)
 
 /-- `cmp.Or(cmp.Compare(name), cmp.Compare(version), cmp.Compare(extractor))`, then the location strings -/
 def keyLt : Key → Key → Bool := prodLt ltBytes (prodLt ltBytes (prodLt ltBytes ltBytes))
